@@ -794,11 +794,17 @@ class DirectoryRecord:
         # recognize that bisect_left will always choose an index to the *left*
         # of a duplicate child.  Thus, to check for duplicates we only need to
         # see if the child to be added is a duplicate with the entry that
-        # bisect_left returned.
+        # bisect_left returned.  The one exception is an associated file, which
+        # has the name of the file it belongs to without being a duplicate of
+        # it: associated files of this name are skipped to get to the file.
         index = bisect.bisect_left(self.children, child)
         is_continuation = False
-        if index != len(self.children) and self.children[index].file_ident == child.file_ident:
-            if not self.children[index].is_associated_file() and not child.is_associated_file():
+        dup_index = index
+        if not child.is_associated_file():
+            while dup_index != len(self.children) and self.children[dup_index].file_ident == child.file_ident and self.children[dup_index].is_associated_file():
+                dup_index += 1
+        if dup_index != len(self.children) and self.children[dup_index].file_ident == child.file_ident:
+            if not self.children[dup_index].is_associated_file() and not child.is_associated_file():
                 # Some ISOs in the wild have duplicate names in the Rock Ridge
                 # relocation directory, so we tolerate them while parsing
                 # (when check_overflow is False), but never add new ones.
@@ -807,6 +813,7 @@ class DirectoryRecord:
                         raise pycdlibexception.PyCdlibInvalidInput('Failed adding duplicate name to parent')
 
                     is_continuation = True
+                    index = dup_index
 
         rr_index = -1
         if child.rock_ridge is not None and not child.is_dot() and not child.is_dotdot():
@@ -908,9 +915,12 @@ class DirectoryRecord:
         probe = DirectoryRecord()
         probe.file_ident = name
         index = bisect.bisect_left(self.children, probe)
+        # An associated file has the name of the file it belongs to, and does
+        # not stand in the way of it; skip associated files of this name.
+        while index != len(self.children) and self.children[index].file_ident == name and self.children[index].is_associated_file():
+            index += 1
         if index != len(self.children) and self.children[index].file_ident == name:
-            if not self.children[index].is_associated_file():
-                raise pycdlibexception.PyCdlibInvalidInput('Failed adding duplicate name to parent')
+            raise pycdlibexception.PyCdlibInvalidInput('Failed adding duplicate name to parent')
 
         if rr_name is not None:
             # The Rock Ridge names in a directory have to be unique too; a
